@@ -103,7 +103,12 @@ def run_plan(plan, seed, choices=None):
     # ---- no-abandon
     for i, o in sorted(run.obs.items()):
         V.check('C13/no-abandon')
-        if o.calls and o.calls[0][2] == 'eb' and o.calls[0][3][0] in ('ConnectionShutdown', 'ConnectionException', 'NoHostAvailable'):
+        capacity = o.calls and o.calls[0][2] == 'eb' and o.calls[0][3][0] == 'NoHostAvailable' and \
+            ('NoConnectionsAvailable' in o.calls[0][3][1] or 'ConnectionBusy' in o.calls[0][3][1]) and 'Connection to' not in o.calls[0][3][1]
+        if capacity:
+            # refused for lack of a free stream id (the saturated old connection): a capacity refusal, not an abandoned request
+            sim.probe('request_refused_all_ids_in_use')
+        elif o.calls and o.calls[0][2] == 'eb' and o.calls[0][3][0] in ('ConnectionShutdown', 'ConnectionException', 'NoHostAvailable'):
             r = plan['requests'][i] if i < len(plan['requests']) else {}
             V.add('C13/no-abandon', 'live-request-failed-with-connection-error',
                   'request %d (%s, timeout %s) failed with %s although no connection fault was injected' % (i, r.get('role'), r.get('timeout'), o.calls[0][3]))
